@@ -246,6 +246,48 @@ def readLines (pinned recurseDefault : Bool) : List Str → Except ReadErr Manif
 def read (pinned recurseDefault : Bool) (text : Str) : Except ReadErr Manifest :=
   readLines pinned recurseDefault (lines (univNewlines text))
 
+/-! ### a manifest as a live object -/
+
+/-- `Manifest.read(file, setproduct, shouldRecurse)` into a manifest that may already hold entries: the entries of the
+file are appended; product and version are taken from the header if asked for, or if there is none yet -/
+def Manifest.readInto (m : Manifest) (setproduct recurseDefault : Bool) (text : Str) : Except ReadErr Manifest :=
+  match read false recurseDefault text with
+  | .error e => .error e
+  | .ok f => .ok { product := if setproduct || m.product.isNone then f.product else m.product,
+                   version := if setproduct || m.version.isNone then f.version else m.version,
+                   deps := m.deps ++ f.deps }
+
+/-- `Manifest.reverse()` -/
+def Manifest.reverse (m : Manifest) : Manifest := { m with deps := m.deps.reverse }
+
+def rollLeft1 {α : Type} : List α → List α
+  | [] => []
+  | x :: r => r ++ [x]
+
+def rollRight1 {α : Type} (l : List α) : List α :=
+  match l.reverse with
+  | [] => []
+  | x :: r => x :: r.reverse
+
+/-- `Manifest.roll(n)`: `n = 1`: `[a, b, c, d] -> [b, c, d, a]`; negative `n` rolls the other way -/
+def iter {α : Type} (f : α → α) : Nat → α → α
+  | 0, x => x
+  | k + 1, x => iter f k (f x)
+
+def rollList {α : Type} (n : Int) (l : List α) : List α :=
+  if n < 0 then iter rollRight1 n.natAbs l else iter rollLeft1 n.natAbs l
+
+def Manifest.roll (m : Manifest) (n : Int) : Manifest := { m with deps := rollList n m.deps }
+
+/-- `Manifest.getDependency(product, version, flavor, which)`: the `which`-th (Python index, default `-1` = last) of the
+entries that match -/
+def Manifest.getDependency (m : Manifest) (product : Str) (version flavor : Option Str) (which : Int) : Option Dep :=
+  let out := m.deps.filter fun d => d.product == product && (version.isNone || some d.version == version) &&
+    (flavor.isNone || d.flavor == flavor)
+  let n : Int := out.length
+  if out.isEmpty || which ≥ n || which < -n then none
+  else if which ≥ 0 then out[which.toNat]? else out[(n + which).toNat]?
+
 /-! ## TaggedProductList -/
 
 structure TagList where
